@@ -506,9 +506,11 @@ class ResultQuantifier(CanBehaveLikeAVariable[T], ABC):
         Evaluate the query and map the results to the correct output data structure.
         This is the exposed evaluation method for users.
         """
-        SymbolGraph().remove_dead_instances()
+        # first forget what earlier evaluations cached (the cached domains are the last references to instances the
+        # user has dropped), then sweep what died
         for node in self._all_nodes_:
             node._start_evaluation_()
+        SymbolGraph().remove_dead_instances()
         yield from map(self._process_result_, self._evaluate__())
 
     def _evaluate__(
